@@ -54,6 +54,24 @@ def case(mod, servers, pre="-", locs=(), env="n", drop="-", tmo=3000):
     return " ".join([hx(df), ID, hx(cf), CI, pre, str(len(locs)), *locs, env, str(drop), str(tmo), str(len(servers)), *servers])
 
 
+def mcase(servers, sched, pre="-", tmo=3000, mod=0):
+    """shared-cache history: len(servers) clients (client i <-> server i) sharing one cache and one tmp directory"""
+    df, cf = MODS[mod]
+    return " ".join(["kM", hx(df), ID, hx(cf), CI, pre, str(tmo), str(len(servers)), *servers, ",".join(sched) or "-"])
+
+
+def interleavings(seqs):
+    """all merges of the token sequences (each keeps its own order)"""
+    seqs = [q for q in seqs if q]
+    if not seqs:
+        yield []
+        return
+    for k, q in enumerate(seqs):
+        rest = seqs[:k] + [q[1:]] + seqs[k + 1:]
+        for tail in interleavings(rest):
+            yield [q[0]] + tail
+
+
 def source_atoms():
     """Generator dictionary taken from the code under test: the record keywords the parser matches
     (`tag("...")` in sym_file/parser.rs) and the string literals of http.rs (`INFO URL {url}\\n`, query keys ...).
@@ -189,10 +207,35 @@ def parse_blocks(ans):
     return out
 
 
+def parse_multi(ans):
+    """answer of a kM case -> {snaps: [(cache, tmp, mask)], res: [(result, nreq)], F: {c,t}, B: {r,q,c,t}}"""
+    bl = dict(re.findall(r"([SRFB])\{([^}]*)\}", ans))
+    if set(bl) != set("SRFB"):
+        return None
+    out = {"snaps": [], "res": []}
+    for f in bl["S"].split(" "):
+        k, v = f.split("=", 1)
+        if k != "n":
+            out["snaps"].append(tuple(v.split("/")))
+    for f in bl["R"].split(" "):
+        out["res"].append(tuple(f.split("=", 1)[1].split("/")))
+    out["F"] = dict(f.split("=", 1) for f in bl["F"].split(" "))
+    out["B"] = dict(f.split("=", 1) for f in bl["B"].split(" "))
+    return out
+
+
 class Case:
     def __init__(self, line):
         t = line.split()
         self.kind = None
+        if t[0] == "kM":
+            # kM df id cf ci pre tmo nc scripts.. sched  ->  the single-lookup layout with the schedule kept aside
+            nc = int(t[7])
+            self.sched = [] if t[8 + nc] == "-" else [(int(x[:-1]), x[-1]) for x in t[8 + nc].split(",")]
+            t = t[1:6] + ["0", "n", "-", t[6], t[7]] + t[8:8 + nc]
+            self.multi = True
+        else:
+            self.multi = False
         if t[0] in ("kB", "kD"):
             self.kind = t[0][1]
             t = t[1:]
@@ -302,7 +345,7 @@ class C16(PropBase):
         cases = []
         dist = {"truncate_every_k": 0, "corrupt_line_j": 0, "drop": 0, "random": 0, "big": 0, "special": 0,
                 "own_info_url": 0, "dictionary_bodies": 0, "cut_at_line_boundary": 0,
-                "locate_file": 0, "code_info_redirect": 0, "lines_80_160k": 0}
+                "locate_file": 0, "code_info_redirect": 0, "lines_80_160k": 0, "shared_cache": 0}
         bg = BodyGen(rng)
         dist["dictionary_atoms"] = len(bg.kws) + len(bg.lits)
         thorough = tier != "quick"
@@ -421,6 +464,57 @@ class C16(PropBase):
                 for ct in ("c", "r"):
                     if k < n:
                         add("cut_at_line_boundary", case(0, [srv(framing=fr, cut="%s%d" % (ct, k), body=base)]))
+        # ---- shared cache (round 4): two or three clients (one HttpSymbolSupplier each) share the cache and tmp
+        # directories and download the same module; the gated servers release head / half body / end in every
+        # interleaving; every outcome combination (success, HTTP error, cut, RST at a line boundary, corrupt,
+        # no response, abandoned after the head / after half the body / before the head), late starters
+        corrupt_tail = join(lines[:-2] + [b"GARBAGE LINE"] + lines[-2:])
+        nl_late = [k for k in nls if n // 2 < k < n]
+        kinds = [
+            ("ok", lambda: srv(body=base), ["H", "E"]),
+            ("okK", lambda: srv(framing="K%d,%d" % (n // 3, 2 * n // 3), body=other), ["H", "E"]),
+            ("okE", lambda: srv(framing="E", body=other), ["H", "B", "E"]),
+            ("404", lambda: srv(rng.choice([404, 500, 403])), ["E"]),
+            ("cut", lambda: srv(cut="c%d" % rng.range(n // 2 + 3, n - 2), body=base), ["H", "E"]),
+            ("rstnl", lambda: srv(framing="K%d" % (n // 2), cut="r%d" % rng.choice(nl_late), body=base), ["H", "B", "E"]),
+            ("corrupt", lambda: srv(body=corrupt_tail), ["H", "E"]),
+            ("nohead", lambda: srv(cut="h", body=base), ["E"]),
+            ("dropH", lambda: srv(body=base), ["H", "D"]),
+            ("dropB", lambda: srv(framing="K%d" % (n // 4), body=other), ["H", "B", "D"]),
+            ("drop0", lambda: srv(body=base), ["D"]),
+        ]
+        def toks(i, seq):
+            return ["%d%s" % (i, x) for x in seq]
+        for ka, mka, sa in kinds:
+            for kb, mkb, sb in kinds:
+                ils = list(interleavings([toks(0, sa), toks(1, sb)]))
+                if not thorough and len(ils) > 6:
+                    ils = [ils[0], ils[-1]] + [ils[rng.range(1, len(ils) - 2)] for _ in range(4)]
+                for il in ils:
+                    add("shared_cache", mcase([mka(), mkb()], il))
+        # late starters (cache hit instead of a download), pre-existing entries, three clients
+        for _ in range(120 if not thorough else 1200):
+            nc = rng.choice([2, 3, 3])
+            ch = [rng.choice(kinds) for _ in range(nc)]
+            seqs = []
+            for i, (kn, mk, sq) in enumerate(ch):
+                sq = list(sq)
+                if rng.chance(1, 3):
+                    sq = ["S"] + sq
+                seqs.append(toks(i, sq))
+            il = []
+            while any(seqs):
+                q = rng.choice([q for q in seqs if q])
+                il.append(q.pop(0))
+            pre = "-"
+            c_ = rng.below(10)
+            if c_ == 0:
+                pre = "F" + hx(other)
+            elif c_ == 1:
+                pre = "D"
+            elif c_ == 2:
+                pre = "F" + hx(b"BROKEN\n")
+            add("shared_cache", mcase([mk() for kn, mk, sq in ch], il, pre=pre, mod=rng.below(3) if pre == "-" else 0))
         # ---- locate_file for binaries / extra debug info (fetch_lookup): oracle only, the model answers '?'
         blob = bytes((i * 7 + 3) % 256 for i in range(700)) + b"\nINFO URL not-a-sym-file\n" + bytes(range(256))
         nbl = len(blob)
@@ -588,10 +682,128 @@ class C16(PropBase):
             parts.append("d=" + b.get("d", "?"))
         return "%s{%s}" % (name, " ".join(parts))
 
+    def canon_multi(self, c, ans):
+        """S{cache/tmpcount ..}R{result/requests ..}F{cache/tmpcount}B{result/requests/cache/tmpcount}"""
+        m = parse_multi(ans)
+        if m is None:
+            return "malformed"
+        def cc(x):
+            if x == "-":
+                return "-"
+            ents = x.split(",")
+            if len(ents) == 1 and unhx(ents[0].split(":")[0]).decode("utf-8", "replace") == c.rel:
+                return ":".join(ents[0].split(":")[1:])
+            return x
+        def tc(x):
+            return "0" if x == "-" else str(len(x.split(",")))
+        def rr(x):
+            return ":".join(x.split(":")[:4]) if x.startswith("OK:") else x
+        snaps = " ".join("%s/%s" % (cc(a), tc(b)) for a, b, _ in m["snaps"])
+        res = " ".join("%s/%s" % (rr(r), q) for r, q in m["res"])
+        return "S{%s}R{%s}F{%s/%s}B{%s/%s/%s/%s}" % (snaps, res, cc(m["F"]["c"]), tc(m["F"]["t"]), rr(m["B"]["r"]), m["B"]["q"], cc(m["B"]["c"]), tc(m["B"]["t"]))
+
+    def oracle_multi(self, c, ans):
+        """Shared cache, judged on the real code's directory snapshots alone.  Property text: a file is at the cache
+        path only after a whole download was parsed; failed or abandoned downloads leave no entry and no temp file --
+        so (1) every file ever seen is <complete 200 body of client i> + INFO URL <url i> with client i successful,
+        (2) a step of a client whose download fails or is abandoned leaves the cache exactly as it was: an entry
+        committed by another client survives, (3) never more temp files than downloads in flight, none at the end,
+        (4) a later lookup without network returns what the entry's owner returned."""
+        m = parse_multi(ans)
+        if m is None:
+            return "malformed answer"
+        nc = len(c.servers)
+        res = m["res"]
+        if len(res) != nc or len(m["snaps"]) != len(c.sched) + 1:
+            return "malformed answer (clients/snapshots)"
+        committed = {}
+        for i in range(nc):
+            sv = c.served(i)
+            if sv is not None:
+                sep = b"" if (not sv or sv.endswith(b"\n")) else b"\n"
+                committed[sig(sv + sep + b"INFO URL " + c.url(i) + b"\n")] = i
+        foreign = {sig(unhx(c.pre[1:]))} if c.pre.startswith("F") else set()
+        def entry(tree, where):
+            """-> (error, sig or None)"""
+            if tree == "-":
+                return None, None
+            files = tree.split(",")
+            if len(files) > 1:
+                return "more than one file in the shared cache %s" % where, None
+            relhex, ln, crc = files[0].split(":")
+            if unhx(relhex).decode("utf-8", "replace") != c.rel:
+                return "file at an unexpected cache path %s" % where, None
+            s = "%s:%s" % (ln, crc)
+            if s in foreign:
+                return None, s
+            if s not in committed:
+                return "shared cache entry (len %s) %s is not <complete 200 body> + INFO URL record of any client (partial, corrupt or wrongly annotated file visible to the other clients)" % (ln, where), None
+            i = committed[s]
+            r, q = res[i]
+            if not r.startswith("OK:") or q != "1":
+                return "shared cache entry %s belongs to client %d whose lookup did not succeed by download (%s)" % (where, i, r[:40]), None
+            if r.split(":")[3] == "N" or unhx(r.split(":")[3]) != c.url(i):
+                return "shared cache entry %s annotated with a URL other than the one its downloader reports" % where, None
+            return None, s
+        for i, (r, q) in enumerate(res):
+            if r in ("HUNG", "P", "NOTSTARTED") or q not in ("0", "1"):
+                return "client %d: %s with %s requests" % (i, r, q)
+            if r.startswith("OK:") and q == "1" and c.served(i) is None:
+                return "client %d succeeded from a response that was not a complete 200 body" % i
+        trees = [("after the clients started", m["snaps"][0])] + [("after step %d (%d%s)" % (k, *c.sched[k]), m["snaps"][k + 1]) for k in range(len(c.sched))]
+        prev = None
+        had = None
+        for k, (where, (tree, tmp, mask)) in enumerate(trees):
+            err, s = entry(tree, where)
+            if err:
+                return err
+            inflight = nc - bin(int(mask)).count("1")
+            ntmp = 0 if tmp == "-" else len(tmp.split(","))
+            if ntmp > inflight:
+                return "%d temp file(s) in the shared tmp directory %s with only %d download(s) in flight (stray temp file)" % (ntmp, where, inflight)
+            if k > 0:
+                i, op = c.sched[k - 1]
+                r, q = res[i]
+                downloaded = r.startswith("OK:") and q == "1"
+                if tree != prev and not downloaded:
+                    return ("the shared cache changed %s although client %d's download failed / was abandoned / never happened (%s): %s -> %s"
+                            % (where, i, r[:20], ":".join(prev.split(":")[1:]) or "-", ":".join(tree.split(":")[1:]) or "-"))
+                if tree != prev and downloaded and (s is None or committed.get(s) != i):
+                    return "client %d's successful download replaced the shared entry by something that is not its own complete file %s" % (i, where)
+            if had is not None and tree == "-":
+                return "a complete entry was in the shared cache %s and is gone %s" % (had, where)
+            if tree != "-" and had is None:
+                had = where
+            prev = tree
+        F, B = m["F"], m["B"]
+        if F["t"] != "-" or B["t"] != "-":
+            return "stray file(s) in the shared tmp directory after every client finished: sizes %s" % (F["t"] if F["t"] != "-" else B["t"])
+        err, s = entry(F["c"], "after all clients finished")
+        if err:
+            return err
+        if had is not None and F["c"] == "-":
+            return "a complete entry was in the shared cache %s and is gone after all clients finished" % had
+        if B["c"] != F["c"]:
+            return "a lookup with all servers answering 404 changed the shared cache"
+        if s is not None and s in committed:
+            owner = res[committed[s]][0]
+            if B["r"] != owner:
+                return "lookup served from the shared cache differs from what the entry's downloader got: %s vs %s" % (B["r"][:120], owner[:120])
+            if B["q"] != "0":
+                return "lookup used the network although the entry is in the shared cache"
+            for i, (r, q) in enumerate(res):
+                if q == "0" and r.startswith("OK:") and not foreign:
+                    # cache hit of a late starter: some downloader's table and URL
+                    if not any(r == res[j][0] for j in committed.values()):
+                        return "client %d was served from the shared cache but got a table/URL that no downloader produced" % i
+        return None
+
     def canon_impl(self, case, ans, profile):
         if ans.startswith("P;;"):
             return "P;;"
         c = Case(case)
+        if c.multi:
+            return self.canon_multi(c, ans)
         bl = parse_blocks(ans)
         return "".join(self.canon_block(c, k, bl[k]) for k in "ABXY" if k in bl)
 
@@ -603,6 +815,8 @@ class C16(PropBase):
         if ans.startswith("P;;"):
             return "panic: " + ans[3:200]
         c = Case(case)
+        if c.multi:
+            return self.oracle_multi(c, ans)
         bl = parse_blocks(ans)
         if "A" not in bl or "B" not in bl or (c.drop != "-" and ("X" not in bl or "Y" not in bl)):
             return "malformed answer"
@@ -757,6 +971,8 @@ class C16(PropBase):
         return None
 
     def nontrivial(self, case, ans):
+        if ans.startswith("S{"):
+            return bool(re.search(r"F\{c=[0-9a-f]", ans))
         return ("DROPPED" in ans) or bool(re.search(r"c=[0-9a-f]", ans))
 
 
